@@ -18,7 +18,7 @@ class C14:
             "non-trivial = value nests >= 2 levels or holds non-ASCII text, an int beyond 32 bits or a special float; "
             "distinct = canonical value")
     assumptions = ["the host's built-in marshal is ground truth", "text-float formats cannot carry NaN sign/payload"]
-    budgets = {"quick": {"shards": 12, "examples": 250, "seconds": 70},
+    budgets = {"quick": {"shards": 12, "examples": 900, "seconds": 70},
                "thorough": {"shards": 16, "examples": 8000, "seconds": 900}}
 
     def strategy(self, ctx):
